@@ -50,12 +50,15 @@ class Field:
 
 
 def run(chk):
-    c18.translate(chk)
+    tr18 = c18.translate(chk)
     chk.trust("translate/fields.py (closures of calc_curvature and the helper chain)",
               "CONTRACT: the interpolant's derivative evaluators are partial derivatives of one psi (as C18)",
               "grid oracle: curl(B/B^2) recomputed from the grid's inputs with independent splines and Richardson differences; grad(y) from the grid's own displacements (duality) on non-orthogonal grids")
     chk.assume("agreement of the two curvature_type formulations is observed at one resolution (discretisation error ~ 10-50% near the X-point on the coarse corpus grids)")
     chk.coq()
+    # the ingredients: the theorems take the helper chain (second derivatives of psi, dB*/d*, fpolprime) as the derivatives of their primitives --
+    # that contract is monitored here too (both interpolation methods, dR != dZ), so that a wrong ingredient is reported with a concrete input
+    c18.field_oracle(c18.Prefixed(chk, "ingredient:"), tr18)
     grids = {g.name: g for g in corpus.get(tier=chk.tier) if g.ok}
     n = 0
     worst = {}
